@@ -36,6 +36,7 @@ def run_sim(cfgs, dec, rew, X, params):
                         test_size=params["test_size"], is_ordered=params["is_ordered"], batch_size=params["batch_size"],
                         seed=params["seed"], is_quick=params["is_quick"])
         sim.run()
+        ops.COUNTERS["transitions"] += 1          # one simulation = one transition of the system under test
     finally:
         logging.getLogger().handlers.clear()
     return sim, originals
@@ -60,6 +61,7 @@ def replay_api(mab, cfg, dec, rew, X, tr, te, batch):
         m.fit(d[tr], r[tr])
     else:
         m.fit(d[tr], r[tr], x[tr])
+    ops.COUNTERS["transitions"] += 1
     preds, exps = [], []
     batches = [te] if batch == 0 else [te[s:s + batch] for s in range(0, len(te), batch)]
     for b in batches:
@@ -73,7 +75,9 @@ def replay_api(mab, cfg, dec, rew, X, tr, te, batch):
             if not nbr:
                 e = m.predict_expectations(x[b])
             exps += e if isinstance(e, list) else [e]
+        ops.COUNTERS["observations"] += 2
         if batch:
+            ops.COUNTERS["transitions"] += 1
             if cf:
                 m.partial_fit(d[b], r[b])
             else:
